@@ -105,6 +105,8 @@ pub trait VStream: Sized { type Item; spec fn budget(&self) -> nat; }
 #[verifier::external_body] #[verifier::accept_recursive_types(I)] pub struct BoxStream<I> { _p: Vec<I> }
 impl<I> VStream for BoxStream<I> { type Item = I; uninterp spec fn budget(&self) -> nat; }
 impl<I> BoxStream<I> {
+    // selium_protocol::traits::ShutdownStream for BoxStream: empty body in the repo (checked on every run: R7b)
+    #[verifier::external_body] pub fn shutdown_stream(&mut self) ensures *final(self) == *old(self) { unimplemented!() }
     pub uninterp spec fn yielded(&self) -> Seq<I>;
     pub uninterp spec fn ended(&self) -> bool;
     pub uninterp spec fn src_id(&self) -> int;
@@ -126,16 +128,17 @@ impl<I> BoxStream<I> {
 #[verifier::external_body] #[verifier::accept_recursive_types(K)] #[verifier::accept_recursive_types(S)] pub struct StreamMap<K, S> { _p: Vec<(K, S)> }
 impl<K, S: VStream> StreamMap<K, S> {
     pub uninterp spec fn yielded(&self) -> Seq<S::Item>;          // merged yield order
+    pub uninterp spec fn yielded_keys(&self) -> Seq<K>;           // the key of the inner stream each item came from
     pub uninterp spec fn empty(&self) -> bool;
     pub uninterp spec fn budget(&self) -> nat;
     #[verifier::external_body] pub fn new() -> (r: Self) ensures r.yielded() == Seq::<S::Item>::empty(), r.empty(), r.budget() == 0 { unimplemented!() }
     #[verifier::external_body] pub fn is_empty(&self) -> (r: bool) ensures r == self.empty() { unimplemented!() }
     #[verifier::external_body] pub fn insert(&mut self, k: K, st: S) -> (r: Option<S>)
-        ensures !final(self).empty(), final(self).yielded() == old(self).yielded(), final(self).budget() == old(self).budget() + st.budget() { unimplemented!() }
+        ensures !final(self).empty(), final(self).yielded() == old(self).yielded(), final(self).yielded_keys() == old(self).yielded_keys(), final(self).budget() == old(self).budget() + st.budget() { unimplemented!() }
     #[verifier::external_body] pub fn poll_next(&mut self, cx: &mut Context) -> (r: Poll<Option<(K, S::Item)>>)
         ensures
-            r matches Poll::Ready(Some(kv)) ==> final(self).yielded() == old(self).yielded().push(kv.1) && final(self).budget() < old(self).budget(),
-            !(r matches Poll::Ready(Some(_))) ==> final(self).yielded() == old(self).yielded() && final(self).budget() == old(self).budget() && final(self).empty() == old(self).empty(),
+            r matches Poll::Ready(Some(kv)) ==> final(self).yielded() == old(self).yielded().push(kv.1) && final(self).yielded_keys() == old(self).yielded_keys().push(kv.0) && final(self).budget() < old(self).budget(),
+            !(r matches Poll::Ready(Some(_))) ==> final(self).yielded() == old(self).yielded() && final(self).yielded_keys() == old(self).yielded_keys() && final(self).budget() == old(self).budget() && final(self).empty() == old(self).empty(),
             (r matches Poll::Ready(None)) <==> old(self).empty(),
             r is Pending ==> final(cx).armed_src() == old(cx).armed_src().insert(SRC_STREAMS()),
             r is Ready ==> final(cx).armed_src() == old(cx).armed_src().remove(SRC_STREAMS()),
